@@ -411,13 +411,23 @@ func concCase(r *vlib.Run, id string, ilv *sync.Map) {
 		r.Violation("intern.value-roundtrip", "concurrent: Value of a just-returned id is wrong", id, map[string]any{"detail": *m})
 		return
 	}
-	res, info := porcupine.CheckOperationsVerbose(internModel, hist, 20*time.Second)
-	_ = info
-	switch res {
-	case porcupine.Illegal:
-		r.Violation("intern.not-linearizable", "concurrent Intern/Query history is not linearizable against the first-intern-fixes-the-id model", id, histWitness(hist, ""))
-	case porcupine.Unknown:
-		r.Inconclusive("porcupine timeout on " + id)
+	// Linearizability. Small histories go through porcupine (general checker, search may be exponential);
+	// every history is also decided by an exact O(n) checker specialised to this model (see internKeyLinearizable),
+	// so a porcupine timeout never leaves a history undecided.
+	if bad := internHistoryLinearizable(hist); bad != "" {
+		r.Violation("intern.not-linearizable", "concurrent Intern/Query history is not linearizable against the first-intern-fixes-the-id model", id, histWitness(hist, bad))
+	} else if len(hist) <= 400 {
+		res, _ := porcupine.CheckOperationsVerbose(internModel, hist, 10*time.Second)
+		switch res {
+		case porcupine.Illegal:
+			r.Violation("intern.not-linearizable", "porcupine: concurrent Intern/Query history is not linearizable against the first-intern-fixes-the-id model", id, histWitness(hist, ""))
+		case porcupine.Unknown:
+			r.Class("porcupine-timeout (history decided by the specialised checker)")
+		default:
+			r.Class("porcupine-ok")
+		}
+	} else {
+		r.Class("decided-by-specialised-checker-only (history too long for porcupine)")
 	}
 	// interleaving signature: order of (goroutine) by call time, hashed
 	var sb strings.Builder
@@ -472,4 +482,71 @@ func histWitness(hist []porcupine.Operation, only string) map[string]any {
 		}
 	}
 	return map[string]any{"history": ss}
+}
+
+// internHistoryLinearizable decides, per string, whether the recorded operations are linearizable against
+// the model "the first Intern fixes the id; Query reports present iff an Intern has taken effect", given that
+// all successful operations on one string already returned one id (checked by the caller). It returns "" or the
+// string whose sub-history is not linearizable.
+//
+// For one string: a linearization exists iff a point p can be chosen for the first Intern such that
+//   - p lies after the call of every Query that answered "absent" (they must take effect before p),
+//   - p lies before the return of every Query that answered "present" and of every Intern (they take effect at or after p),
+//   - p is not before the earliest Intern call (some Intern must have started).
+//
+// If there is no Intern at all, every Query must have answered "absent". Intervals are closed (as in porcupine).
+func internHistoryLinearizable(hist []porcupine.Operation) string {
+	type agg struct {
+		interns               int
+		minInternCall         int64
+		minReturnOfAfter      int64 // min return over interns and present-queries
+		maxCallOfAbsent       int64
+		presentWithoutInterns bool
+	}
+	m := map[string]*agg{}
+	for _, op := range hist {
+		in, out := op.Input.(internOp), op.Output.(internOut)
+		a := m[in.S]
+		if a == nil {
+			a = &agg{minInternCall: 1 << 62, minReturnOfAfter: 1 << 62, maxCallOfAbsent: -1}
+			m[in.S] = a
+		}
+		switch {
+		case !in.Query:
+			a.interns++
+			if op.Call < a.minInternCall {
+				a.minInternCall = op.Call
+			}
+			if op.Return < a.minReturnOfAfter {
+				a.minReturnOfAfter = op.Return
+			}
+		case out.OK:
+			if op.Return < a.minReturnOfAfter {
+				a.minReturnOfAfter = op.Return
+			}
+		default:
+			if op.Call > a.maxCallOfAbsent {
+				a.maxCallOfAbsent = op.Call
+			}
+		}
+	}
+	for _, op := range hist {
+		in, out := op.Input.(internOp), op.Output.(internOut)
+		if in.Query && out.OK && m[in.S].interns == 0 {
+			return in.S
+		}
+	}
+	for s, a := range m {
+		if a.interns == 0 {
+			continue
+		}
+		lo := a.minInternCall
+		if a.maxCallOfAbsent > lo {
+			lo = a.maxCallOfAbsent
+		}
+		if lo > a.minReturnOfAfter {
+			return s
+		}
+	}
+	return ""
 }
